@@ -49,7 +49,23 @@ func calleeNames(cc *ssa.CallCommon) []string {
 	if b, ok := cc.Value.(*ssa.Builtin); ok {
 		return []string{b.Name()}
 	}
-	return []string{valueLabel(cc.Value)}
+	names := []string{valueLabel(cc.Value)}
+	// a function value loaded from a struct field: also addressable by the field's name
+	switch v := cc.Value.(type) {
+	case *ssa.UnOp:
+		if fa, ok := v.X.(*ssa.FieldAddr); ok {
+			if pt, ok := fa.X.Type().Underlying().(*types.Pointer); ok {
+				if st, ok := pt.Elem().Underlying().(*types.Struct); ok {
+					names = append(names, st.Field(fa.Field).Name())
+				}
+			}
+		}
+	case *ssa.Field:
+		if st, ok := v.X.Type().Underlying().(*types.Struct); ok {
+			names = append(names, st.Field(v.Field).Name())
+		}
+	}
+	return names
 }
 
 func (fr *frame) beforeAsserts(cc *ssa.CallCommon, st *bstate, site ssa.Instruction) {
@@ -87,6 +103,16 @@ func (fr *frame) beforeAsserts(cc *ssa.CallCommon, st *bstate, site ssa.Instruct
 		ba.C.used = true
 		env := fr.specEnv(st.heap, fr.oldHeap, nil)
 		env.addVars(fr.localEnvAtInstr(site, st.heap))
+		argv := map[string]Val{}
+		k := 0
+		if cc.IsInvoke() {
+			argv["arg0"] = fr.val(cc.Value)
+			k = 1
+		}
+		for i, a := range cc.Args {
+			argv[fmt.Sprintf("arg%d", i+k)] = fr.val(a)
+		}
+		env.addVars(argv)
 		v, err := env.evalBool(ba.C.E)
 		if err != nil {
 			f.fail("%s: before call %s: %v", ba.C.Line, ba.Callee, err)
